@@ -22,6 +22,11 @@ structure DSt where
   isHost : Bool := false
   curKind : OpKind := .send      -- the operation the following "+ k" lines belong to
   curTy : NType := .problem
+  ck : C03.CkSt := {}            -- the model of the checkable's side: force_next_notification, object registered
+  pending : Bool := false        -- the specification's bit: a requester set force since the checkable's previous request
+  curSpecForce : Bool := false   -- … as it was for the request the following "+ k" lines belong to
+  unseen : Nat := 0              -- requests while the notification objects were not registered with the checkable
+  forceSets : Nat := 0
   multi : Nat := 0               -- cases with more than one notification object
   coldStashed : Nat := 0         -- requests stashed during / behind the cold-start phase
   coldReplayed : Nat := 0        -- timer runs that replayed (or dropped) a stash
@@ -134,7 +139,8 @@ def tickN (c : Cfg) (e : Env) : Nat → C03.St → List Event → C03.St × List
 def bump (d : DSt) : DSt :=
   if d.caseNontrivial then d else { d with caseNontrivial := true, nontrivial := d.nontrivial + 1 }
 
-def handleOp (d : DSt) (n : Nat) (k : Nat) (kind : OpKind) (ty : NType) (post : List String) : IO DSt := do
+def handleOp (d : DSt) (n : Nat) (k : Nat) (kind : OpKind) (ty : NType) (post : List String)
+    (modelForce : Option Bool := none) : IO DSt := do
   match d.objs[k]? with
   | none => IO.println s!"BADLINE line={n}"; return d
   | some ob =>
@@ -154,6 +160,13 @@ def handleOp (d : DSt) (n : Nat) (k : Nat) (kind : OpKind) (ty : NType) (post : 
         | .send => sendStep ob.cfg ob.st ty e
         | .tick => tickN ob.cfg e fired ob.st []
       let mut d := { d with steps := d.steps + 1 }
+      -- the checkable's flag as the implementation has it before the request, against the model's (F sets, every request resets)
+      match modelForce with
+      | some mf =>
+        if mf != e.force then
+          IO.println s!"MISMATCH line={n} case={d.caseNo} op=force obj={k} impl={showBool e.force} model={showBool mf}"
+          d := { d with mismatches := d.mismatches + 1 }
+      | none => pure ()
       d := match kind with | .send => { d with sends := d.sends + 1 } | .tick => { d with ticks := d.ticks + fired }
       let ids := List.range 8
       let nm (b : Bool) : Bool := decide (ob.cfg.interval ≤ 0) && b
@@ -166,7 +179,9 @@ def handleOp (d : DSt) (n : Nat) (k : Nat) (kind : OpKind) (ty : NType) (post : 
         IO.println s!"MISMATCH line={n} case={d.caseNo} op={opn} obj={k} impl={showEvents evs};{showPairs ":" cmds "-" ","};{showIds (sortNat npu)};{showPairs "=" lns "_" "+"};{next};{showBool noMore};{number};{sup};{showPairs ":" stash "-" ","} model={showEvents mev};{showPairs ":" (cmdsOf mev) "-" ","};{showIds (sortNat ms.npu)};{showPairs "=" (lnsList ms.lns) "_" "+"};{ms.next};{showBool ms.noMore};{ms.number};{ms.sup.toNat};{showPairs ":" (ms.stash.map fun p => (p.1.bit, if p.2 then 1 else 0)) "-" ","}"
         d := { d with mismatches := d.mismatches + 1 }
       -- the specification on the implementation's own observations
-      let obs : C03.Obs := ⟨kind, e, evs, sup / 32 % 2 == 1, match kind with | .send => some ty | .tick => none⟩
+      -- "this request was forced" is the specification's own derivation from the operations (Spec.lean reqForced), not the flag
+      let eS : Env := match kind with | .send => { e with force := d.curSpecForce } | .tick => e
+      let obs : C03.Obs := ⟨kind, eS, evs, sup / 32 % 2 == 1, match kind with | .send => some ty | .tick => none⟩
       let (bad, sp') := C03.specStep ob.cfg ob.sp obs
       let loose := C03.recipientsObsLoose ob.psLoose obs
       let looseRem := C03.reminderObsLoose ob.cfg ob.remLoose obs
@@ -204,6 +219,26 @@ def handleOp (d : DSt) (n : Nat) (k : Nat) (kind : OpKind) (ty : NType) (post : 
       return { d with objs := d.objs.set! k { ob with st := st', sp := sp', psLoose := loose.2, remLoose := looseRem.2 } }
   | _ => IO.println s!"BADLINE line={n}"; return d
 
+/-- One request of the checkable (N, or q raised by the code): the model's `ckRequest` and the specification's bit. -/
+def handleRequest (d : DSt) (n : Nat) (ty : NType) (post : List String) : IO DSt := do
+  let r := C03.ckRequest d.ck
+  let d1 := { d with curKind := .send, curTy := ty, curSpecForce := d.pending, pending := false, ck := r.1 }
+  match post with
+  | ["unseen", f0, f1] =>
+    -- no notification object registered: nothing to see but the flag before / after
+    match parseBool? f0, parseBool? f1 with
+    | some b0, some b1 =>
+      let mut d := { d1 with unseen := d.unseen + 1, steps := d.steps + 1 }
+      if d.ck.attached then
+        IO.println s!"MISMATCH line={n} case={d.caseNo} op=attached obj=0 impl=unseen model=attached"
+        d := { d with mismatches := d.mismatches + 1 }
+      if b0 != r.2 || b1 != r.1.force then
+        IO.println s!"MISMATCH line={n} case={d.caseNo} op=force obj=0 impl={showBool b0}->{showBool b1} model={showBool r.2}->{showBool r.1.force}"
+        d := { d with mismatches := d.mismatches + 1 }
+      return d
+    | _, _ => IO.println s!"BADLINE line={n}"; return d
+  | _ => handleOp d1 n 0 .send ty post (some r.2)
+
 def parseCfg (isHost : Bool) (ws : List String) : Option Cfg :=
   match ws with
   | iv :: tb :: te :: tf :: sf :: _ => do
@@ -220,7 +255,8 @@ def handle (d : DSt) (n : Nat) (line : String) : IO DSt := do
     | some isHost =>
       match parseCfg isHost rest with
       | some cfg =>
-        return { d with objs := #[{ cfg := cfg }], isHost := isHost, caseNo := d.caseNo + 1, caseFailed := [], caseNontrivial := false }
+        return { d with objs := #[{ cfg := cfg }], isHost := isHost, caseNo := d.caseNo + 1, caseFailed := [], caseNontrivial := false,
+                        ck := {}, pending := false, curSpecForce := false }
       | none => IO.println s!"BADLINE line={n}"; return d
     | none => IO.println s!"BADLINE line={n}"; return d
   | "O" :: rest =>
@@ -233,7 +269,7 @@ def handle (d : DSt) (n : Nat) (line : String) : IO DSt := do
     match pre with
     | [tb, _dt] =>
       match (parseNat? tb) >>= NType.ofBit? with
-      | some ty => handleOp { d with curKind := .send, curTy := ty } n 0 .send ty post
+      | some ty => handleRequest d n ty post
       | none => IO.println s!"BADLINE line={n}"; return d
     | _ => IO.println s!"BADLINE line={n}"; return d
   | "q" :: rest =>     -- a request raised by the code itself inside an X / Z operation
@@ -241,12 +277,18 @@ def handle (d : DSt) (n : Nat) (line : String) : IO DSt := do
     match pre with
     | [tb] =>
       match (parseNat? tb) >>= NType.ofBit? with
-      | some ty => handleOp { d with curKind := .send, curTy := ty, requests := d.requests + 1 } n 0 .send ty post
+      | some ty => handleRequest { d with requests := d.requests + 1 } n ty post
       | none => IO.println s!"BADLINE line={n}"; return d
     | _ => IO.println s!"BADLINE line={n}"; return d
   | "T" :: rest =>
     let (_, post) := splitBar rest
+    if post == ["unseen"] then return d   -- no notification object exists: the timer has nothing to walk
     handleOp { d with curKind := .tick, curTy := .problem } n 0 .tick .problem post
+  | "F" :: _ => return { d with ck := C03.ckSetForce d.ck, pending := true, forceSets := d.forceSets + 1 }
+  | ["H", v, "|"] =>
+    match parseBool? v with
+    | some b => return { d with ck := { d.ck with attached := b } }
+    | none => IO.println s!"BADLINE line={n}"; return d
   | "+" :: rest =>     -- the same operation as seen by a further notification object
     let (pre, post) := splitBar rest
     match pre with
@@ -270,4 +312,4 @@ def handle (d : DSt) (n : Nat) (line : String) : IO DSt := do
 def main : IO Unit := do
   let stdin ← IO.getStdin
   let d ← foldLines stdin handle ({} : DSt)
-  IO.println s!"STATS cases={d.caseNo} steps={d.steps} sends={d.sends} ticks={d.ticks} events={d.events} deliveries={d.deliveries} reminders={d.reminders} recoveries={d.recoveries} acks={d.acks} filtered_recoveries={d.filteredRecoveries} forced={d.forced} stashed={d.stashed} released={d.released} cold_stashed={d.coldStashed} cold_replayed={d.coldReplayed} multi_object_cases={d.multi} code_requests={d.requests} nontrivial={d.nontrivial} mismatches={d.mismatches} specfails={d.specfails}"
+  IO.println s!"STATS cases={d.caseNo} steps={d.steps} sends={d.sends} ticks={d.ticks} events={d.events} deliveries={d.deliveries} reminders={d.reminders} recoveries={d.recoveries} acks={d.acks} filtered_recoveries={d.filteredRecoveries} forced={d.forced} stashed={d.stashed} released={d.released} cold_stashed={d.coldStashed} cold_replayed={d.coldReplayed} multi_object_cases={d.multi} code_requests={d.requests} unseen_requests={d.unseen} force_sets={d.forceSets} nontrivial={d.nontrivial} mismatches={d.mismatches} specfails={d.specfails}"
